@@ -227,7 +227,9 @@ def run_impl(cfg, events, ops, trace=False, payload_type=bytes, keymode="script"
                 # own buffers is invisible to select)
                 a = a[1:]
                 idle = not (ws.sock is not None and sock.readable())
+            _guard = simnet.stuck_guard()
             try:
+                _guard.__enter__()
                 if idle:
                     res = "IDLE"
                 elif a[0] in ("recv", "next", "iter"):
@@ -310,8 +312,12 @@ def run_impl(cfg, events, ops, trace=False, payload_type=bytes, keymode="script"
                     raise AssertionError(op)
             except simnet.Spin:
                 res = "X:SPIN"
+            except simnet.Stuck:
+                res = "X:STUCK"
             except Exception as e:  # noqa
                 res = "X:" + common.canon_exc(e)
+            finally:
+                _guard.__exit__(None, None, None)
             delta = bytes(sock.sent[before:])
             sock.step_recvs.append(len(sock.recv_sizes))      # side channel for oracles (not part of the compared line)
             outs.append(f"{res}|{int(bool(ws.connected))}{int(ws.sock is not None)}{int(sock.closed)}|"
